@@ -343,7 +343,7 @@ theorem ruleset_of_request (parsed : String → Except Err (List Rule)) (q : Rul
   | false => simp [h4 hf]
   | true => simp [h5 hf]
 
-/-- `Ruleset.from_files(…, multipliers)` (as repaired by fixes/D60): scaled once -/
+/-- `Ruleset.from_files(…, multipliers)` (as repaired by fixes/D201): scaled once -/
 theorem from_files_scaled_once (rules : List Rule) (m : Rulesets.Mul) (h : Rulesets.Heap) :
     (Rulesets.fromFiles rules m h).1.read (Rulesets.fromFiles rules m h).2 = Rulesets.wanted rules [] [] m :=
   Rulesets.fromFiles_read rules m h
